@@ -395,9 +395,10 @@ def compare(out, clause, want, got, case, level):
         if isinstance(g, tuple):
             g = list(g)
         if canon(g) != canon(w):
-            out.fail(clause, "wrong_effective_value", "%s (%s)" % (o, "flag given" if o in case["flags"] and level == "parser" else "from config"),
+            given = level == "parser" and o in case["flags"] and flag_argv(o, case["flags"][o]) is not None   # some values have no flag spelling
+            out.fail(clause, "wrong_effective_value", "%s (%s)" % (o, "flag given" if given else "from config"),
                      detail={"option": o, "want": w, "got": g, "route": case["route"], "sections": _setters(case, o), "level": level,
-                             "flag_given": o in case["flags"]})
+                             "flag_given": given})
             return
 
 
